@@ -210,7 +210,10 @@ def tour_job(job):
     cfg.update(aw=4, gran=8, dw=8 * maxratio * r.choice([1, 2]))
     if cfg["dw"] > 64:
         cfg["dw"] = 64
-    walk, left = tour([(g, (c, s, l), g2) for (g, c, s, l, g2) in edges], 1, r)
+    walks, left = tour([(g, (c, s, l), g2) for (g, c, s, l, g2) in edges], 1, r)
+    if len(walks) != 1:
+        raise common.MachineryError("arbiter tour needed a restart")
+    walk = walks[0]
     steps = []
     for (g, (c, s, l), g2) in walk:
         step = {}
